@@ -358,7 +358,9 @@ func (d *diff) CompareDiff(ctx context.Context, dl Remote) (newIds, ourChangedId
 
 func (d *diff) compareResults(dctx *diffCtx, r Range, myRes, otherRes RangeResult) {
 	// both hash equals - do nothing
-	if bytes.Equal(myRes.Hash, otherRes.Hash) {
+	// (a side without a division for this range answers with its elements and no hash, and an empty
+	// range has no hash either: two absent hashes mean "equal" only if both sides are empty)
+	if bytes.Equal(myRes.Hash, otherRes.Hash) && (len(myRes.Hash) != 0 || myRes.Count == 0 && otherRes.Count == 0) {
 		return
 	}
 
